@@ -357,10 +357,13 @@ def mission(draw, rt=None, max_alt_ft=41000, above=True):
     fit = max(0.0, min(4500.0, (max_alt_ft - 10000) * FT - 30.0))
 
     def elev():
-        kind = draw(st.sampled_from(['zero', 'low', 'low', 'fit', 'fit', 'fit', 'any', 'above'] if above else
-                                    ['zero', 'low', 'low', 'fit', 'fit', 'fit']))
+        kind = draw(st.sampled_from(['zero', 'low', 'low', 'fit', 'fit', 'fit', 'any', 'above', 'below_sea'] if above else
+                                    ['zero', 'low', 'low', 'fit', 'fit', 'fit', 'below_sea']))
         if kind == 'zero':
             return 0.0
+        if kind == 'below_sea':
+            # airports below sea level exist (Amsterdam -3 m, Dead Sea region -380 m)
+            return draw(st.one_of(st.floats(-430.0, 0.0), st.sampled_from([-3.4, -378.0])))
         if kind == 'low':
             return draw(st.floats(0.0, min(500.0, fit)))
         if kind == 'fit':
